@@ -24,8 +24,8 @@ struct long_lexer {
         if (start == end) return recognized_term{};
         char c = *start;
         if (c == ';') return recognized_term(0, 1);
-        if (c == '=') return recognized_term(3, 1);
-        if (c == 'x' || c == '7') { size_t n = 0; Iterator it = start; while (it != end && *it == c) { ++it; ++n; } return recognized_term(c == 'x' ? 1 : 2, n); }
+        if (c == '=') { recognized_term r; r.term_idx = 3; r.len = 1; return r; }   // "a simple struct with two members": filled in instead of using the constructor
+        if (c == 'x' || c == '7') { size_t n = 0; Iterator it = start; while (it != end && *it == c) { ++it; ++n; } if (c == '7') { recognized_term r{}; r.len = n; r.term_idx = 2; return r; } return recognized_term(1, n); }
         if (c == '<') { size_t n = 0; Iterator it = start; while (it != end) { char d = *it; ++it; ++n; if (d == '>') return recognized_term(4, n); } return recognized_term{}; }
         return recognized_term{};
     }
